@@ -604,6 +604,12 @@ def check_C18(ctx):
     # size and shape beyond small random rules (harness/scale.py)
     for (t_, o_, fam_, *_m) in scale.long_strings(ctx) + scale.big_versions(ctx):
         cs.eval(t_, o_, fam_)
+    for lit, atext in scale.string_pairs(ctx):
+        rc, cc, a = {}, {}, S(atext)
+        for op in REL:
+            rc[op] = cs.eval('x %s "%s"' % (ctx.rng.choice(OP_SPELL[op]), lit), mk_obj(['x'], a), 'six-long-string', attr=a, lit=('string', lit), op=op)
+            cc[op] = cs.opcall(OPT['string'], op, a, right_sx('string', lit), 'call-long-string')
+        vectors.append(('string-long', a, lit, rc, cc))
     res = ctx.run(cs)
     ctx.compare([c for c in cs.cases if c.kind == 'eval'], res, ['verdict', 'err'], scope=accepted)
     ctx.compare([c for c in cs.cases if c.kind == 'opcall'], res, ['res', 'err'])
@@ -1098,7 +1104,7 @@ def check_C20(ctx):
     spread_samples(ctx, cs, res)
 
 # ----------------------------------------------------------------------------
-HOSTILE = [('strpanic',), ('strnilptr',), ('strselfpanic',), ('nilmap',), ('nil',), F(float('nan')), F(float('inf')), F(float('-inf'))] + [('o', t) for t in list(range(21)) + [22, 23, 24, 25, 26, 27]] + \
+HOSTILE = [('strpanic',), ('strnilptr',), ('strselfpanic',), ('nilmap',), ('nil',), F(float('nan')), F(float('inf')), F(float('-inf'))] + [('o', t) for t in list(range(21)) + [22, 23, 24, 25, 26, 27, 29, 30, 31, 32]] + \
           [('str', b'abc'), ('strptr', b'1.0.0'), ('m', [(b'y', ('strpanic',))]), ('m', [(b'y', ('o', 3))])]
 
 def check_C07(ctx):
@@ -1200,6 +1206,16 @@ def check_C11(ctx):
                     ops.append(('r',))
             ops.append(('d',))
             h = cs.hist(text, ops, 'hist-long')
+            fresh = [cs.eval(text, o[1], 'hist-fresh') if o[0] in ('p', 'q') else None for o in ops]
+            hs.append((h, ops, fresh))
+    # many DISTINCT values through one evaluator (caches that fill up and evict), then the first ones again
+    for text, mk in [('name eq "user255"', lambda i: obj({'name': S('User%d' % i)})), ('name co "ser1" or name ew "7"', lambda i: obj({'name': S('User%d' % i)})),
+                     ('name in ["user1", "user300", "USER7"] and n pr', lambda i: obj({'name': S('user%d' % i), 'n': I(i)})),
+                     ('n eq 255 or n in [1, 2, 300]', lambda i: obj({'n': I(i)})), ('v gt 1.0.0', lambda i: obj({'v': S('%d.0.0' % (i % 3))})),
+                     ('a.b.c eq 1 or k%d pr' % 0, lambda i: obj({'k%d' % (i % 70): I(1), 'a': {'b': {'c': I(i % 2)}}}))]:
+        for n in ([70, 300] if ctx.quick else [70, 300, 1100]):
+            ops = [('p', mk(i)) for i in range(n)] + [('p', mk(i)) for i in (0, 1, 2, 7, 255 % n, n - 1, 0)] + [('d',)]
+            h = cs.hist(text, ops, 'hist-many-values')
             fresh = [cs.eval(text, o[1], 'hist-fresh') if o[0] in ('p', 'q') else None for o in ops]
             hs.append((h, ops, fresh))
     res = ctx.run(cs)
